@@ -832,7 +832,7 @@ func init() {
 						Model: fmt.Sprintf("len(out)=%d len(in)=%d", len(out), len(cs.text))})
 				}
 				if want, ok := c07Expected[string(cs.text)]; ok && !cfg.keep && cfg.prec <= 0 && string(out) != want {
-					c.R.Add(h.Finding{Stage: stP.Name, Kind: "fail", What: "regression input (fixed finding K-C07-1): unexpected output", Input: h.Q(cs.text), Hex: h.Hex(cs.text), Config: cfg.String(), Impl: h.Q(out), Model: h.Q([]byte(want))})
+					c.R.Add(h.Finding{Stage: stP.Name, Kind: "diff", What: "regression input (fixed finding K-C07-1): output differs from the recorded one (a longer output is reported separately as fail)", Input: h.Q(cs.text), Hex: h.Hex(cs.text), Config: cfg.String(), Impl: h.Q(out), Model: h.Q([]byte(want))})
 				}
 				jobs = append(jobs, job{i, cfg, out, table, mode})
 				linesB = append(linesB, "model.c07.minify "+h.Hex(cs.text)+" "+h.Bool(cfg.keep)+" "+h.Int(int64(cfg.prec))+" "+h.List(table))
